@@ -24,6 +24,7 @@ import (
 	"errors"
 	"fmt"
 	"io"
+	"os"
 	"strconv"
 	"strings"
 	"sync"
@@ -47,12 +48,12 @@ type c16Step struct {
 }
 
 type c16Case struct {
-	Kind    string    `json:"kind"` // telnet | standard | system | system-ssh
-	Sub     string    `json:"sub"`  // shell | netconf (ssh kinds)
-	Auth    string    `json:"auth"` // none | password (standard)
-	Via     string    `json:"via"`  // impl | transport
-	Mode    string    `json:"mode"` // close | peerclose | session
-	N       int       `json:"n"`    // read size
+	Kind    string    `json:"kind"`              // telnet | standard | system | system-ssh
+	Sub     string    `json:"sub"`               // shell | netconf (ssh kinds)
+	Auth    string    `json:"auth"`              // none | password (standard)
+	Via     string    `json:"via"`               // impl | transport
+	Mode    string    `json:"mode"`              // close | peerclose | session
+	N       int       `json:"n"`                 // read size
 	Initial string    `json:"initial,omitempty"` // telnet: data sent during the opening; system: payload the stand-in emits
 	Steps   []c16Step `json:"steps,omitempty"`
 	Probe   string    `json:"probe,omitempty"` // named corpus probe
@@ -150,7 +151,7 @@ func genC16(r *sim.Rng, i int) *c16Case {
 		c.Sub = r.Pick([]string{"shell", "shell", "netconf"})
 		c.Auth = r.Pick([]string{"none", "password"})
 	}
-	if r.Chance(1, 8) {
+	if r.Chance(1, 6) {
 		c.Mode = "session"
 		c.Sess = genC16Sess(r, c)
 		return c
@@ -212,6 +213,14 @@ func c16Corpus() []*c16Case {
 		{Kind: "system-ssh", Sub: "shell", Auth: "none", Via: "impl", Mode: "peerclose", N: 8192, Steps: []c16Step{{Op: "s", B: h(big[:8192*3+5])}, {Op: "w", B: h(big[:9000])}}},
 		// probe: a line starting with '~' — the ssh client's escape character on a pty session
 		{Kind: "system-ssh", Sub: "shell", Auth: "none", Via: "impl", Mode: "close", N: 64, Probe: "tilde", Steps: []c16Step{{Op: "w", B: h("conf t\n~~ banner ~\n~x\n")}, {Op: "s", B: h("ok\n")}}},
+		{Kind: "system-ssh", Sub: "shell", Auth: "none", Via: "impl", Mode: "close", N: 64, Probe: "tilde-dot", Steps: []c16Step{{Op: "w", B: h("conf t\n")}, {Op: "w", B: h("~. end of banner")}, {Op: "w", B: h("\n")}, {Op: "s", B: h("ok\n")}}},
+		// probes: NETCONF over the system transport — ssh on a pty that stays in canonical mode
+		{Kind: "system-ssh", Sub: "netconf", Auth: "none", Via: "impl", Mode: "close", N: 8192, Probe: "nc-pty-cooked", Steps: []c16Step{{Op: "w", B: h("<rpc>abc</rpc>]]>]]>\n")}, {Op: "s", B: h("<rpc-reply/>\n]]>]]>")}}},
+		{Kind: "system-ssh", Sub: "netconf", Auth: "none", Via: "impl", Mode: "session", N: 64, Probe: "nc-long-line", Sess: &c16Sess{Proto: "netconf", Ver: "1.0", TimeoutMS: 700,
+			Ops: []ncOp{{Kind: "edit", Args: []string{"running", "<config>" + strings.Repeat("<i>0123</i>", 600) + "</config>"}}, {Kind: "lock", Args: []string{"running"}}}}},
+		// the same session over the standard transport (passes)
+		{Kind: "standard", Sub: "netconf", Auth: "password", Via: "impl", Mode: "session", N: 64, Sess: &c16Sess{Proto: "netconf", Ver: "both", TimeoutMS: 700,
+			Ops: []ncOp{{Kind: "edit", Args: []string{"running", "<config>" + strings.Repeat("<i>0123</i>", 600) + "</config>"}}, {Kind: "lock", Args: []string{"running"}}}}},
 	}
 }
 
@@ -340,7 +349,9 @@ func runC16Case(id string, c *c16Case) {
 	fail := func(sig, format string, a ...interface{}) {
 		if cs.Oracle == "" {
 			cs.Oracle = fmt.Sprintf(format, a...)
-			cs.Sig = "C16:" + sig
+			cs.Sig = "C16:" + sig // the first failure names the class
+		} else if len(cs.Oracle) < 1500 {
+			cs.Oracle += "; " + fmt.Sprintf(format, a...)
 		}
 	}
 	initial := unhex(c.Initial)
@@ -412,25 +423,30 @@ func runC16Case(id string, c *c16Case) {
 			_, _ = closeClient()
 		}
 	}()
-	if sshPeer != nil {
-		// the session must be what the property names: pty + shell, or the netconf subsystem
-		want := "pty-req,shell"
-		if c.Sub == "netconf" {
-			want = "subsystem:netconf"
-		}
-		got := strings.Join(sshPeer.Requests(), ",")
-		got = strings.ReplaceAll(got, "env,", "")
-		if got != want {
-			fail("session-requests", "ssh session requests %q, want %q", got, want)
-		}
-		if c.Kind == "standard" && c.Auth == "password" {
-			sshPeer.mu2.Lock()
-			a := sshPeer.authed
-			sshPeer.mu2.Unlock()
-			if a != "password" {
-				fail("auth", "password authentication was not used")
+	checkSession := func() {
+		if sshPeer != nil {
+			// the session must be what the property names: pty + shell, or the netconf subsystem
+			want := "pty-req,shell"
+			if c.Sub == "netconf" {
+				want = "subsystem:netconf"
+			}
+			got := strings.Join(sshPeer.Requests(), ",")
+			got = strings.ReplaceAll(got, "env,", "")
+			if got != want {
+				fail("session-requests", "ssh session requests %q, want %q", got, want)
+			}
+			if c.Kind == "standard" && c.Auth == "password" {
+				sshPeer.mu2.Lock()
+				a := sshPeer.authed
+				sshPeer.mu2.Unlock()
+				if a != "password" {
+					fail("auth", "password authentication was not used")
+				}
 			}
 		}
+	}
+	if c.Kind == "standard" {
+		checkSession()
 	}
 	rd := startC16Reader(cl, c.N)
 	// the stream this end must see, in order.  With a marker the peer announces that the pipe is up
@@ -450,6 +466,7 @@ func runC16Case(id string, c *c16Case) {
 			return
 		}
 		prefix = all[:bytes.Index(all, marker)+len(marker)]
+		checkSession() // (the system transport's Open returns before ssh has connected)
 	}
 	var expect []byte
 	switch c.Kind {
@@ -497,7 +514,7 @@ func runC16Case(id string, c *c16Case) {
 		rd.mu.Unlock()
 		return t >= len(expect) || rd.finished()
 	})
-	c16Wait(3*time.Second, func() bool { return len(peer.Received()) >= len(writes) })
+	c16Wait(1500*time.Millisecond, func() bool { return len(peer.Received()) >= len(writes) })
 	received := peer.Received()
 	// give a stray extra byte the chance to show up, and the reader the time to block in Read again
 	time.Sleep(3 * time.Millisecond)
@@ -533,15 +550,15 @@ func runC16Case(id string, c *c16Case) {
 		fail("read-missing", "reads returned %d of %d bytes within the watchdog: %s", len(allBefore), len(expect), c16Diff(allBefore, expect))
 	case !bytes.Equal(allBefore, expect):
 		fail("read-stream", "concatenated reads differ from what the peer sent: %s", c16Diff(allBefore, expect))
+	case c.Kind == "system-ssh" && c.Mode == "peerclose" && bytes.HasPrefix(all, expect):
+		// once the peer is gone the ssh client says so on the pty ("Connection to ... closed"):
+		// local chatter after the end of the peer's stream, taken as observed
+		expect = all
 	case !bytes.Equal(all, expect):
 		fail("read-extra", "bytes appeared after the stream was complete: %s", c16Diff(all, expect))
 	}
 	if !bytes.Equal(received, writes) {
-		sig := "write-stream"
-		if c.Probe != "" {
-			sig = "write-stream:" + c.Probe
-		}
-		fail(sig, "the peer received something else than what was written: %s", c16Diff(received, writes))
+		fail("write-stream", "the peer received something else than what was written: %s", c16Diff(received, writes))
 	}
 	for i, r := range reads {
 		switch {
@@ -562,7 +579,7 @@ func runC16Case(id string, c *c16Case) {
 		}
 		fail("telnet-initial", "first read returned %s, want the whole initial buffer %s", c16Trunc(g), c16Trunc(initial))
 	}
-	if earlyEnd {
+	if earlyEnd && !(c.Kind == "system" && c.Mode == "peerclose") { // (the stand-in leaves by itself)
 		fail("read-ended-early", "Read returned an error while the connection was up: %v", readsBefore[len(readsBefore)-1].err)
 	}
 	if !unblocked {
@@ -571,8 +588,18 @@ func runC16Case(id string, c *c16Case) {
 	if !closeReturned {
 		fail("close-hangs", "Close did not return within 2 s")
 	}
-	_ = dt
+	if os.Getenv("C16_TIMING") != "" {
+		fmt.Fprintf(os.Stderr, "c16-timing %s %s unblocked=%v after=%v\n", c.Kind, c.Mode, unblocked, dt.Round(100*time.Microsecond))
+	}
 	cs.Nontrivial = len(expect) > c.N && len(writes) > 0
+	if cs.Oracle != "" {
+		switch c.Probe {
+		case "tilde", "tilde-dot": // the ssh client's escape character ('~' at the start of a line)
+			cs.Sig = "C16:ssh-escape-char"
+		case "nc-pty-cooked": // local echo and LF -> CR LF of the canonical-mode pty
+			cs.Sig = "C16:system-netconf-pty-cooked"
+		}
+	}
 
 	// ---- model line: the peer's stream cut at the sizes the real reads returned
 	mkind := c.Kind
@@ -589,9 +616,11 @@ func runC16Case(id string, c *c16Case) {
 	}
 	var deliveries, obs []string
 	var sizes []string
+	prevFull, merge := false, true
 	for i, r := range reads {
 		sizes = append(sizes, strconv.Itoa(c.N))
 		if r.err != nil {
+			prevFull = false
 			deliveries = append(deliveries, c16ErrMark(r.err))
 			obs = append(obs, c16ErrMark(r.err)+hx(r.b))
 			continue
@@ -604,7 +633,16 @@ func runC16Case(id string, c *c16Case) {
 		if k > len(rest) {
 			k = len(rest)
 		}
-		deliveries = append(deliveries, hx(rest[:k]))
+		// a read that filled its buffer may have left the tail of the same kernel delivery behind:
+		// for every second such pair let the model see ONE delivery longer than n (it must cut it
+		// the same way), otherwise one delivery per read
+		if prevFull && merge {
+			deliveries[len(deliveries)-1] += hx(rest[:k])
+		} else {
+			deliveries = append(deliveries, hx(rest[:k]))
+		}
+		merge = !merge
+		prevFull = len(r.b) == c.N
 		rest = rest[k:]
 	}
 	if len(rest) > 0 {
@@ -621,6 +659,11 @@ func runC16Case(id string, c *c16Case) {
 		sz = strings.Join(sizes, ",")
 	}
 	cs.Line = fmt.Sprintf("c16 %s %s %s %s", mkind, ini, join(deliveries), sz)
+	if c.Probe != "" && cs.Oracle != "" {
+		// a probe that shows the OS path (ssh client, pty) altering the stream: the wrapper model has
+		// nothing to say about it, the oracle verdict stands alone
+		cs.Line = ""
+	}
 	cs.Obs = fmt.Sprintf("%s R%s", join(obs), hx(expect[min16(len(all), len(expect)):]))
 	emit(cs)
 }
